@@ -367,7 +367,7 @@ def greedy_callers_lib(ctx, mode):
         Xc = as_array(kw["X_cand"], st)
         b = to_int(kw["batch_size"])
         cc = to_int(Xc.shape[0])
-        k = len(ctx.setdefault("calls", []))
+        k = len([e for e in st.events if e[0] == "gs_call"])          # per path: the events belong to the state
         E.oblige(f"call{k}._greedy_sampling.requires.0<=batch_size<=len(X_cand)", st, z3.And(0 <= b, b <= cc), line=getattr(node, "lineno", 0))
         t, t2, j = z3.Ints("g_t g_t2 g_j")
         inr = lambda jj: z3.And(0 <= jj, jj < cc)
@@ -385,7 +385,7 @@ def greedy_callers_lib(ctx, mode):
         st.assume(z3.ForAll([t2, j], z3.Implies(z3.And(0 <= t2, t2 <= b, inr(j), z3.Not(GSEL(kk, t2)[j])),
                                                 z3.And(0 <= GW(kk, t2, j), GW(kk, t2, j) < t2, GQ(kk, GW(kk, t2, j)) == j))))
         q = ArrData((b,), lambda i, kk=kk: GQ(kk, i), "i")
-        ctx["calls"].append(dict(kw=dict(kw), b=b, c=cc, U=U, q=q))
+        st.events.append(("gs_call", k, dict(kw=dict(kw), b=b, c=cc, U=U, q=q)))
         return (st.alloc(q), st.alloc(U))
 
     @L.fn("check_type", "check_scalar")
@@ -395,6 +395,15 @@ def greedy_callers_lib(ctx, mode):
     @L.fn("clone")
     def _clone(E, st, args, kw, node):
         return Opaque("clone")
+
+    base_argwhere = L.functions["np.argwhere"]
+
+    def _argwhere(E, st, args, kw, node):
+        r = base_argwhere(E, st, args, kw, node)
+        if isinstance(r, Ref) and hasattr(st.get(r), "filter_of"):
+            st.events.append(("argwhere", st.get(r).filter_of, as_array(args[0], st)))
+        return r
+    L.functions["np.argwhere"] = _argwhere
     return L
 
 
@@ -477,10 +486,61 @@ def unit_greedy_x(mode):
 
     def post(E, c_, outs):
         _greedy_post(E, ctx, outs, mode, lambda t2, p: GW(0, t2, p))
-        E.oblige("one_call_of__greedy_sampling", [], z3.BoolVal(len(ctx.get("calls", [])) >= 1))
+        for o in returns(outs):
+            E.oblige("one_call_of__greedy_sampling", o.state, z3.BoolVal(len([e for e in o.state.events if e[0] == "gs_call"]) == 1))
     return se_unit(f"pool_loops.GreedySamplingX.query.{mode}", FG, "GreedySamplingX.query", "GreedySamplingX", setup, post,
                    lib_factory=lambda: greedy_callers_lib(ctx, mode))
 
 
 for _m in ("none", "idx", "rows"):
     UNITS[f"C01.C02.GreedySamplingX.query.{_m}"] = unit_greedy_x(_m)
+
+
+def unit_greedy_target(mode):
+    ctx = {}
+
+    def setup(E, st):
+        ctx.clear()
+        X, y, cand = _greedy_world(ctx, st, mode)
+        nx = z3.Int("n_GSx_samples")
+        st.assume(nx >= 0)
+        selfo = st.alloc(ObjData("GreedySamplingTarget", {"method": None, "x_metric": None, "y_metric": None, "x_metric_dict": None, "y_metric_dict": None,
+                                                          "n_GSx_samples": nx, "missing_label": Opaque("missing_label"), "random_state": Opaque("random_state")}))
+        bs = z3.Int("batch_size")
+        return {"args": [selfo, X, y, Opaque("reg")], "kwargs": {"candidates": cand, "batch_size": bs, "return_utilities": True, "fit_reg": z3.Bool("fit_reg")}}
+
+    def post(E, c_, outs):
+        t2, p = z3.Ints("w_t2 w_p")
+        for o in returns(outs):
+            st = o.state
+            calls = [e for e in st.events if e[0] == "gs_call"]
+            aw = [e for e in st.events if e[0] == "argwhere"]
+            bs = ctx["bs"]
+            # which phases ran on this path, and the witness 'candidate position p is masked in row t2 => it was picked at step wit(t2, p)'
+            if len(calls) == 2:
+                bx = calls[0][2]["b"]
+                (mask, pos, m_, inv) = aw[-1][1]
+
+                def wit(t2, p, bx=bx, inv=inv):
+                    picked_x = z3.Not(GSEL(0, bx)[p])
+                    return z3.If(t2 <= bx, GW(0, t2, p), z3.If(picked_x, GW(0, bx, p), bx + GW(1, t2 - bx, inv(p))))
+            elif len(calls) == 1 and aw:
+                kw = calls[0][2]["kw"]
+                first_phase = kw.get("method") == "x"
+                if first_phase:
+                    wit = lambda t2, p: GW(0, t2, p)
+                else:
+                    (mask, pos, m_, inv) = aw[-1][1]
+                    wit = lambda t2, p, inv=inv: GW(0, t2, inv(p))
+            else:
+                wit = lambda t2, p: z3.IntVal(-1)
+            E.oblige("phases.at_most_two_calls_of__greedy_sampling", st, z3.BoolVal(len(calls) <= 2))
+            _greedy_post(E, ctx, [o], mode, wit)
+        if not returns(outs):
+            E.oblige("reaches.return", [], z3.BoolVal(False))
+    return se_unit(f"pool_loops.GreedySamplingTarget.query.{mode}", FG, "GreedySamplingTarget.query", "GreedySamplingTarget", setup, post,
+                   lib_factory=lambda: greedy_callers_lib(ctx, mode))
+
+
+for _m in ("none", "idx", "rows"):
+    UNITS[f"C01.C02.GreedySamplingTarget.query.{_m}"] = unit_greedy_target(_m)
